@@ -72,6 +72,8 @@ impl Scope {
     }
     pub(crate) fn add_node(&self, node: NodeRef) {
         assert!(node.created_in().equals(self));
+        #[cfg(cormacrelf_incremental_rs_verif)]
+        crate::verif::register(&node);
         match self {
             Self::Top => {}
             Self::Bind(bind_weak) => {
